@@ -440,7 +440,7 @@ pub fn run(ctx: &Ctx) {
         }
     }
     if is_os() && rep.nviol.load(Ordering::Relaxed) == 0 && ctx.want(RACE_CASE) {
-        let spawns = ctx.opt_u64("race_spawns", if ctx.thorough { 300 } else { 25 }) as usize;
+        let spawns = ctx.opt_u64("race_spawns", if ctx.thorough { 1500 } else { 100 }) as usize;
         let mut problems: Vec<(String, Value)> = Vec::new();
         let guard = op_begin("spawn-race", RACE_CASE);
         let (children, created) = spawn_race(ctx.seed ^ ctx.batch, &base_fds, spawns, 4, &mut problems);
